@@ -85,6 +85,9 @@ func call(wait time.Duration, f func()) bool {
 }
 
 func RunChaos(in ChaosIn) ChaosObs {
+	if in.Mode == "stuck-write" {
+		return runStuckWrite(in)
+	}
 	obs := ChaosObs{Final: []string{}, Blocked: []string{}}
 	ca, cb, err := c10.Pair()
 	if err != nil {
@@ -370,4 +373,103 @@ func RandomChaos(r *rand.Rand, mp int, i int) c10.Job {
 		in.Qlen = 16
 	}
 	return c10.Job{ID: fmt.Sprintf("chaos-%d-%s", i, in.Mode), In: in}
+}
+
+// runStuckWrite: the peer's mux was created WithBlockedRead and is never unblocked (as
+// pkg/adaptation does while a plugin is being set up), so nothing drains the trunk: Writes of
+// payloads larger than the socket buffer block inside trunk.Write. Then 1-8 goroutines Close
+// the writing mux (some also its connections). Close must return, the stuck Writes must
+// return an error, and every later call must return.
+func runStuckWrite(in ChaosIn) ChaosObs {
+	obs := ChaosObs{Conns: []ConnLog{}, Final: []string{}, Blocked: []string{}}
+	ca, cb, err := c10.Pair()
+	if err != nil {
+		obs.Crashed = "harness: " + err.Error()
+		return obs
+	}
+	wait := time.Duration(in.WaitMs) * time.Millisecond
+	ta, tb := c10.NewTap(ca), c10.NewTap(cb)
+	ta.NoSave, tb.NoSave = true, true
+	ma := mux.Multiplex(ta, mux.WithReadQueueLength(in.Qlen))
+	mb := mux.Multiplex(tb, mux.WithReadQueueLength(in.Qlen), mux.WithBlockedRead())
+	var conns []net.Conn
+	for i := 0; i < in.Nids; i++ {
+		c, err := ma.Open(mux.ConnID(1 + i))
+		if err != nil {
+			obs.Crashed = "harness: open: " + err.Error()
+			return obs
+		}
+		mb.Open(mux.ConnID(1 + i))
+		conns = append(conns, c)
+	}
+	var bmu sync.Mutex
+	blocked := func(s string) { bmu.Lock(); obs.Blocked = append(obs.Blocked, s); bmu.Unlock() }
+	note := func(s string) { bmu.Lock(); obs.Final = append(obs.Final, s); bmu.Unlock() }
+	var wg sync.WaitGroup
+	var stuckOK int64
+	for i, c := range conns {
+		wg.Add(1)
+		go func(i int, c net.Conn) {
+			defer wg.Done()
+			p := c10.Payload(in.MaxLen, i, 1)
+			var werr error
+			if !call(wait, func() { _, werr = c.Write(p) }) {
+				blocked(fmt.Sprintf("write stuck on the trunk not released by Close: id=%d", i+1))
+				return
+			}
+			if werr == nil {
+				atomic.AddInt64(&stuckOK, 1)
+			}
+			// later Writes and Reads return as well
+			if !call(wait, func() { c.Write([]byte{1}) }) {
+				blocked(fmt.Sprintf("write after close: id=%d", i+1))
+			}
+			if !call(wait, func() { c.Read(make([]byte, 16)) }) {
+				blocked(fmt.Sprintf("read after close: id=%d", i+1))
+			}
+		}(i, c)
+	}
+	time.Sleep(time.Duration(in.FaultAt) * time.Millisecond)
+	start := make(chan struct{})
+	var cwg sync.WaitGroup
+	for k := 0; k < in.Closers; k++ {
+		cwg.Add(1)
+		go func(k int) {
+			defer cwg.Done()
+			<-start
+			if k%3 == 2 {
+				if !call(wait, func() { conns[k%len(conns)].Close() }) {
+					blocked("conn close while a write is stuck")
+				}
+				return
+			}
+			if !call(wait, func() { ma.Close() }) {
+				blocked("mux close while a write is stuck")
+			}
+		}(k)
+	}
+	close(start)
+	cwg.Wait()
+	if !call(wait, func() { ma.Close() }) {
+		blocked("final mux close")
+	}
+	if !call(wait+wait, wg.Wait) {
+		blocked("writers still running")
+	}
+	if n := atomic.LoadInt64(&stuckOK); n > 0 {
+		note(fmt.Sprintf("%d of %d writes completed before the close", n, len(conns)))
+	}
+	if !call(wait, func() { mb.Close() }) {
+		blocked("peer mux close")
+	}
+	ta.Conn.Close()
+	tb.Conn.Close()
+	return obs
+}
+
+func StuckWrite(r *rand.Rand, mp int, i int) c10.Job {
+	in := ChaosIn{Kind: "chaos", Note: "stuck-write", Mp: mp, Mode: "stuck-write", Qlen: 4,
+		Nids: 1 + r.Intn(4), Closers: 1 + r.Intn(8), FaultAt: 5 + r.Intn(40),
+		MaxLen: (600 + r.Intn(1500)) << 10, Seed: r.Int63n(1 << 30), WaitMs: 5000}
+	return c10.Job{ID: fmt.Sprintf("chaos-stuck-%d", i), In: in}
 }
